@@ -321,7 +321,7 @@ class TokenStore(Generic[_T]):
         end_handle = _check_store_handle(end, self)
         if start_handle.block is end_handle.block:
             yield from start_handle.block.tokens[start_handle.index:end_handle.index+1]
-        else:
+        elif start_handle.block.index < end_handle.block.index:
             yield from start_handle.block.tokens[start_handle.index:]
             for i in range(start_handle.block.index + 1, end_handle.block.index):
                 yield from self._blocks[i].tokens
